@@ -15,7 +15,7 @@ import os
 import re
 import vlib
 
-PROOF_MODULES = []
+PROOF_MODULES = ["C44/TotalBox.vo", "C44/TotalStr.vo", "C44/TotalFuel.vo", "C44/TotalProofs.vo", "C44/UnicodeProofs.vo", "C44/BoxProofs.vo", "C44/LatexProofs.vo", "C44/MathMLProofs.vo"]
 OBLIGATIONS = [
     "C44/P_mathml_wellformed.v", "C44/P_mathml_total.v",
     "C44/P_latex_balanced_guarded.v", "C44/P_latex_balanced_refuted.v", "C44/P_latex_checker.v",
@@ -38,6 +38,8 @@ SHARED_DEPS = ["Base/Prelude.vo", "Base/Word64.vo", "Num/NumDefs.vo", "Gen/TypeC
 def build_own(ctx):
     """compile coq/C44/*.v (model, spec, proofs) when stale; a file that no longer compiles is a broken proof"""
     coq = vlib.COQ
+    if vlib.in_project(OWN_FILES[0]):
+        return True   # built by `make` through ctx.prove(PROOF_MODULES, ...)
     with vlib.Lock(os.path.join(vlib.WORK, "c44-coq.lock")):
         newest = max((os.path.getmtime(os.path.join(coq, d)) for d in SHARED_DEPS if os.path.exists(os.path.join(coq, d))), default=0)
         for f in OWN_FILES:
